@@ -2,11 +2,21 @@
  * repo working tree, linked from the freshly built sanitized libhawk.a) with the line
  * protocol of lean/HawkModel/Drv/Rbt.lean.
  *
- * Keys are integers 0..1023 passed as 2 big-endian bytes (so the default comparator
- * hawk_rbt_dflcomp = memcmp orders them numerically); values are integers 0..255 passed as
- * 1 + v%3 bytes all equal to v (so that INLINE value copiers hit both the "same length:
- * memcpy in place" and the "different length: re-allocate the pair and re-link it"
- * branches of change_pair_val).  `new S` selects hawk_get_rbt_style(S), S = 0..3.
+ * Keys are integers 0..1023; key k is passed as the k-th byte string (1..10 bytes over {1,2})
+ * in lexicographic order, so that the default comparator hawk_rbt_dflcomp (memcmp over the
+ * common prefix, then the shorter key first) orders them like the integers and both of its
+ * length branches are used (many keys are proper prefixes of others).  Values are integers
+ * 0..255 passed as 1 + v%3 bytes all equal to v (so that INLINE value copiers hit the "same
+ * length: memcpy in place" and the "shorter / longer: re-allocate the pair and re-link it"
+ * branches of change_pair_val; the dump decodes the value from the stored bytes AND the stored
+ * length, a stale length or stale tail bytes print as -1).  `new S` selects
+ * hawk_get_rbt_style(S) for S = 0..3; S = 4 is a user style (key copied by a callback and
+ * released by a key freeer, value pointer kept, value freeer / keeper counted, own comparator)
+ * whose callback counts are printed as ` ev=K<key frees>V<value frees>P<keeper calls>`.
+ * `cbsert k v m` drives hawk_rbt_cbsert with a callback of kind m: 0 = re-allocate with value
+ * v, 1 = keep the existing pair, 2 = fail (NULL), 3 = re-allocate with old+v, 4 = change the
+ * existing pair in place when the copier allows it (else re-allocate); all kinds allocate a
+ * new pair for an absent key except 2.
  *
  * After every mutating op the whole tree is dumped in preorder through the real node
  * fields: (<colour><key>=<val>^<key of ->parent or -> <left> <right>), nil = '.', together
@@ -27,10 +37,38 @@ static hawk_mmgr_t mmgr = { m_alloc, m_realloc, m_free, NULL };
 
 #define NKEY 1024
 #define NVAL 256
-static unsigned char ktab[NKEY][2];
+#define KMAX 10
+static struct { unsigned char b[KMAX]; unsigned char len; } ktab[NKEY];
 static unsigned char vtab[NVAL][3];
-#define KLEN 2
+#define KP(k) ((void*)ktab[k].b)
+#define KL(k) ((hawk_oow_t)ktab[k].len)
 #define VLEN_OF(v) (1 + (v) % 3)
+
+/* the first NKEY strings over {1,2} of length 1..KMAX in lexicographic (= preorder) order */
+static int nkt;
+static void gen_keys (unsigned char* cur, int len)
+{
+	int c;
+	if (nkt >= NKEY) return;
+	if (len > 0) { memcpy(ktab[nkt].b, cur, len); ktab[nkt].len = len; nkt++; }
+	if (len >= KMAX) return;
+	for (c = 1; c <= 2; c++) { cur[len] = c; gen_keys(cur, len + 1); }
+}
+static int lexcmp (const unsigned char* a, size_t al, const unsigned char* b, size_t bl)
+{
+	size_t m = al < bl ? al : bl; int n = memcmp(a, b, m);
+	if (n) return n < 0 ? -1 : 1;
+	return (al > bl) - (al < bl);
+}
+
+/* user style (S = 4) */
+static long ev_kfree, ev_vfree, ev_keep;
+static void* u_kcopy (hawk_rbt_t* t, void* p, hawk_oow_t n) { void* q = malloc(n ? n : 1); if (q) memcpy(q, p, n); return q; }
+static void u_kfree (hawk_rbt_t* t, void* p, hawk_oow_t n) { ev_kfree++; free(p); }
+static void u_vfree (hawk_rbt_t* t, void* p, hawk_oow_t n) { ev_vfree++; }
+static void u_keep (hawk_rbt_t* t, void* p, hawk_oow_t n) { ev_keep++; }
+static int u_comp (const hawk_rbt_t* t, const void* a, hawk_oow_t al, const void* b, hawk_oow_t bl) { return lexcmp(a, al, b, bl); }
+static hawk_rbt_style_t ustyle = { { u_kcopy, HAWK_RBT_COPIER_SIMPLE }, { u_kfree, u_vfree }, u_comp, u_keep };
 
 static void on_alarm (int sig) { printf("HANG\n"); fflush(stdout); _exit(3); }
 
@@ -42,8 +80,15 @@ static char obuf[1 << 22]; static size_t olen;
 static long keyof (hawk_rbt_pair_t* p)
 {
 	unsigned char* k = (unsigned char*)HAWK_RBT_KPTR(p);
-	if (HAWK_RBT_KLEN(p) != KLEN || !k) return -1;
-	return ((long)k[0] << 8) | k[1];
+	size_t n = HAWK_RBT_KLEN(p); long lo = 0, hi = NKEY - 1;
+	if (!k || n < 1 || n > KMAX) return -1;
+	while (lo <= hi)
+	{
+		long mid = (lo + hi) / 2; int c = lexcmp(k, n, ktab[mid].b, ktab[mid].len);
+		if (c == 0) return mid;
+		if (c < 0) hi = mid - 1; else lo = mid + 1;
+	}
+	return -1;
 }
 
 /* value as number, or -1 when the stored bytes/length are not a valid encoding */
@@ -118,7 +163,10 @@ static void dump (hawk_rbt_t* t)
 		fl[strlen(fl) - 1] = 0;
 	}
 	else strcpy(fl, "ok");
-	printf("n=%lu h=%ld inv=%s t=%s\n", (unsigned long)t->size, h, fl, obuf);
+	printf("n=%lu h=%ld inv=%s t=%s", (unsigned long)t->size, h, fl, obuf);
+	/* callbacks of the user style seen during this call */
+	if (t->style == &ustyle) printf(" ev=K%ldV%ldP%ld", ev_kfree, ev_vfree, ev_keep);
+	printf("\n");
 }
 
 static const char* errname (hawk_gem_t* g)
@@ -135,26 +183,62 @@ static hawk_rbt_walk_t walker (hawk_rbt_t* t, hawk_rbt_pair_t* p, void* ctx)
 	return HAWK_RBT_WALK_FORWARD;
 }
 
+/* hawk_rbt_cbsert callbacks */
+struct cbctx { int kind; unsigned long v; int called; };
+static hawk_rbt_pair_t* cbserter (hawk_rbt_t* t, hawk_rbt_pair_t* pair, void* kptr, hawk_oow_t klen, void* ctx)
+{
+	struct cbctx* c = (struct cbctx*)ctx; unsigned long nv = c->v; hawk_rbt_pair_t* np;
+	c->called++;
+	if (c->kind == 2) return HAWK_NULL;                                  /* failure */
+	if (!pair) return hawk_rbt_allocpair(t, kptr, klen, vtab[nv], VLEN_OF(nv));
+	if (c->kind == 1) return pair;                                       /* keep the existing pair */
+	if (c->kind == 3) { long ov = valof(pair); nv = ((ov < 0 ? 0 : (unsigned long)ov) + c->v) % NVAL; }
+	if (c->kind == 4)
+	{
+		/* change the existing pair itself when the value copier allows it */
+		if (t->style->copier[HAWK_RBT_VAL] == HAWK_RBT_COPIER_SIMPLE)
+		{
+			HAWK_RBT_VPTR(pair) = vtab[nv]; HAWK_RBT_VLEN(pair) = VLEN_OF(nv);
+			return pair;
+		}
+		if (HAWK_RBT_VLEN(pair) == (hawk_oow_t)VLEN_OF(nv))
+		{
+			memcpy(HAWK_RBT_VPTR(pair), vtab[nv], VLEN_OF(nv));
+			return pair;
+		}
+	}
+	/* re-allocate: build the new pair, destroy the old one, hand back the new one */
+	np = hawk_rbt_allocpair(t, kptr, klen, vtab[nv], VLEN_OF(nv));
+	if (!np) return HAWK_NULL;
+	hawk_rbt_freepair(t, pair);
+	return np;
+}
+
 int main (int argc, char** argv)
 {
 	static hawk_gem_t gem; hawk_rbt_t* t = NULL;
-	char line[256], op[32]; unsigned long x, y; int i;
+	char line[256], op[32]; unsigned long x, y, z; int i;
 	int wd = argc > 1 ? atoi(argv[1]) : 10;
+	unsigned char kb[KMAX];
 	memset(&gem, 0, sizeof(gem)); gem.mmgr = &mmgr;
-	for (i = 0; i < NKEY; i++) { ktab[i][0] = i >> 8; ktab[i][1] = i & 255; }
+	gen_keys(kb, 0);
+	if (nkt != NKEY) { printf("key-table\n"); return 5; }
+	for (i = 1; i < NKEY; i++) if (lexcmp(ktab[i - 1].b, ktab[i - 1].len, ktab[i].b, ktab[i].len) >= 0) { printf("key-table\n"); return 5; }
 	for (i = 0; i < NVAL; i++) { vtab[i][0] = vtab[i][1] = vtab[i][2] = i; }
 	signal(SIGALRM, on_alarm);
 	while (fgets(line, sizeof(line), stdin))
 	{
 		alarm(wd);
+		ev_kfree = ev_vfree = ev_keep = 0;
 		if (sscanf(line, "%31s", op) != 1) { printf("bad-op\n"); continue; }
-		if (!strcmp(op, "new") && sscanf(line, "%*s %lu", &x) == 1 && x < 4)
+		if (!strcmp(op, "new") && sscanf(line, "%*s %lu", &x) == 1 && x < 5)
 		{
+			const hawk_rbt_style_t* st = (x == 4) ? &ustyle : hawk_get_rbt_style((hawk_rbt_style_kind_t)x);
 			if (t) hawk_rbt_close(t);
 			t = hawk_rbt_open(&gem, 0, 1, 1);
 			if (!t) { printf("open-failed\n"); return 4; }
-			hawk_rbt_setstyle(t, hawk_get_rbt_style((hawk_rbt_style_kind_t)x));
-			printf("ok\n");
+			hawk_rbt_setstyle(t, st);
+			printf(hawk_rbt_getstyle(t) == st && hawk_rbt_getsize(t) == 0 ? "ok\n" : "ok?style\n");
 		}
 		else if (!t) printf("bad-op\n");
 		else if ((!strcmp(op, "insert") || !strcmp(op, "upsert") || !strcmp(op, "update") || !strcmp(op, "ensert")) &&
@@ -162,18 +246,28 @@ int main (int argc, char** argv)
 		{
 			hawk_rbt_pair_t* p;
 			gem.errnum = HAWK_ENOERR;
-			if (op[0] == 'i') p = hawk_rbt_insert(t, ktab[x], KLEN, vtab[y], VLEN_OF(y));
-			else if (op[0] == 'e') p = hawk_rbt_ensert(t, ktab[x], KLEN, vtab[y], VLEN_OF(y));
-			else if (op[2] == 's') p = hawk_rbt_upsert(t, ktab[x], KLEN, vtab[y], VLEN_OF(y));
-			else p = hawk_rbt_update(t, ktab[x], KLEN, vtab[y], VLEN_OF(y));
+			if (op[0] == 'i') p = hawk_rbt_insert(t, KP(x), KL(x), vtab[y], VLEN_OF(y));
+			else if (op[0] == 'e') p = hawk_rbt_ensert(t, KP(x), KL(x), vtab[y], VLEN_OF(y));
+			else if (op[2] == 's') p = hawk_rbt_upsert(t, KP(x), KL(x), vtab[y], VLEN_OF(y));
+			else p = hawk_rbt_update(t, KP(x), KL(x), vtab[y], VLEN_OF(y));
 			if (p) printf("r=%ld:%ld ", keyof(p), valof(p)); else printf("r=%s ", errname(&gem));
+			dump(t);
+		}
+		else if (!strcmp(op, "cbsert") && sscanf(line, "%*s %lu %lu %lu", &x, &y, &z) == 3 && x < NKEY && y < NVAL && z < 5)
+		{
+			hawk_rbt_pair_t* p; struct cbctx c;
+			c.kind = (int)z; c.v = y; c.called = 0;
+			gem.errnum = HAWK_ENOERR;
+			p = hawk_rbt_cbsert(t, KP(x), KL(x), cbserter, &c);
+			if (p) printf("r=%ld:%ld ", keyof(p), valof(p)); else printf("r=%s ", c.called == 1 ? "CBFAIL" : "CB?calls");
+			if (p && c.called != 1) printf("cb?calls ");
 			dump(t);
 		}
 		else if (!strcmp(op, "delete") && sscanf(line, "%*s %lu", &x) == 1 && x < NKEY)
 		{
 			int r;
 			gem.errnum = HAWK_ENOERR;
-			r = hawk_rbt_delete(t, ktab[x], KLEN);
+			r = hawk_rbt_delete(t, KP(x), KL(x));
 			if (r == 0) printf("r=0 "); else printf("r=%s ", errname(&gem));
 			dump(t);
 		}
@@ -181,7 +275,7 @@ int main (int argc, char** argv)
 		{
 			hawk_rbt_pair_t* p;
 			gem.errnum = HAWK_ENOERR;
-			p = hawk_rbt_search(t, ktab[x], KLEN);
+			p = hawk_rbt_search(t, KP(x), KL(x));
 			if (p) printf("r=%ld:%ld\n", keyof(p), valof(p)); else printf("r=%s\n", errname(&gem));
 		}
 		else if (!strcmp(op, "clear")) { hawk_rbt_clear(t); printf("r=ok "); dump(t); }
@@ -209,6 +303,34 @@ int main (int argc, char** argv)
 				p = hawk_rbt_getnextpair(t, &itr);
 			}
 			printf("w=%s end=%d\n", wbuf, p == NULL);
+		}
+		else if (!strcmp(op, "zip") && sscanf(line, "%*s %lu", &y) == 1)
+		{
+			/* two live iterators of opposite directions advanced in lockstep (getfirstpair + at most y
+			 * getnextpair calls each), then the first one is re-initialised half-way for the other direction
+			 * and the second one restarted without re-initialisation */
+			hawk_rbt_itr_t a, b; hawk_rbt_pair_t* pa, * pb; unsigned long n = 0;
+			static char abuf[1 << 16], bbuf[1 << 16]; size_t al = 0, bl = 0;
+			abuf[0] = bbuf[0] = 0;
+			hawk_init_rbt_itr(&a, 0); hawk_init_rbt_itr(&b, 1);
+			pa = hawk_rbt_getfirstpair(t, &a); pb = hawk_rbt_getfirstpair(t, &b);
+			while (pa || pb)
+			{
+				if (pa && al < sizeof(abuf) - 64) al += snprintf(abuf + al, sizeof(abuf) - al, "%s%ld:%ld", al ? "," : "", keyof(pa), valof(pa));
+				if (pb && bl < sizeof(bbuf) - 64) bl += snprintf(bbuf + bl, sizeof(bbuf) - bl, "%s%ld:%ld", bl ? "," : "", keyof(pb), valof(pb));
+				if (n++ >= y) break;
+				if (pa) pa = hawk_rbt_getnextpair(t, &a);
+				if (pb) pb = hawk_rbt_getnextpair(t, &b);
+			}
+			printf("w=%s|%s|", abuf, bbuf);
+			hawk_init_rbt_itr(&a, 1);
+			pa = hawk_rbt_getfirstpair(t, &a);
+			if (pa) { printf("%ld:%ld", keyof(pa), valof(pa)); pa = hawk_rbt_getnextpair(t, &a); if (pa) printf(",%ld:%ld", keyof(pa), valof(pa)); }
+			/* and the second one, wherever it stopped, is restarted by hawk_rbt_getfirstpair alone */
+			printf("|");
+			pb = hawk_rbt_getfirstpair(t, &b);
+			if (pb) { printf("%ld:%ld", keyof(pb), valof(pb)); pb = hawk_rbt_getnextpair(t, &b); if (pb) printf(",%ld:%ld", keyof(pb), valof(pb)); }
+			printf("\n");
 		}
 		else printf("bad-op\n");
 		fflush(stdout);
